@@ -166,7 +166,8 @@ def make_asyncio_shim():
     m = AsyncioShim("asyncio_shim")
 
     def sleep(delay, *a, **k):
-        if sys._getframe(1).f_code.co_name == "run_scheduler_loop":
+        # the loop's own sleep: made by the loop's task, not by one of the delayed sends it spawned (those run with CUR set)
+        if CUR.get() is None:
             St.log.append(("sleep", now_us(), delay))
         return asyncio.sleep(delay, *a, **k)
 
@@ -178,9 +179,12 @@ def setup(opts):
     # (not `run.datetime = VDT`: the name may be bound to the datetime MODULE in another spelling of the imports)
     patchall.patch_attr(dt, "datetime", VDT)   # wherever else the package reads the clock: the class under any name,
     #                                        or the datetime module itself under any name (import datetime as dt)
-    run.delayed_send = delayed_send_shim
-    run.get_task_delay = get_task_delay_shim
-    run.asyncio = make_asyncio_shim()
+    # the loop's two helpers and asyncio, wherever the package bound them (moved code, re-exports, aliases)
+    patchall.replace_everywhere(REAL_DELAYED_SEND, delayed_send_shim)
+    patchall.replace_everywhere(REAL_GET_TASK_DELAY, get_task_delay_shim)
+    shim = make_asyncio_shim()
+    patchall.replace_everywhere(asyncio, shim, prefix="taskiq.cli.scheduler")
+    patchall.replace_everywhere(asyncio.sleep, shim.sleep, prefix="taskiq.cli.scheduler")
 
 
 class Inject(Exception):
